@@ -221,6 +221,21 @@ func TestC04(t *testing.T) {
 			runCase("C04:region-table", sprintf("region table count=%d pattern %d %v", cnt, pi, pairs), false, encReqs("/PS3ISO/h.iso"))
 		}
 	}
+	// encrypted images cut in the middle of a sector / a cipher block (the tail sector is encrypted)
+	fullImg, _ := mkRedumpImage(12, []uint32{0, 2, 5, 7, 11, 11}, c10Keys[2], 21)
+	w.Data("PS3ISO/h.dkey", []byte(hex.EncodeToString(c10Keys[2])))
+	for _, sec := range []int{3, 4, 8, 10} {
+		for _, d := range []int{1, 15, 16, 17, 100, 1024, 2047} {
+			idx++
+			if !r.Mine(idx) {
+				continue
+			}
+			ln := sec*2048 + d
+			w.Data("PS3ISO/h.iso", fullImg[:ln])
+			reqs := []Req{mkReq(opOpenFile, "/PS3ISO/h.iso"), rdReq(uint64(sec*2048-10), 4096), rdcReq(uint64(sec*2048), uint32(d)), rdReq(uint64(ln-1), 10), rdReq(0, uint32(ln+100)), rdcReq(uint64(sec*2048+d/2), 1)}
+			runCase("C04:truncated-encrypted-image", sprintf("redump image truncated to %d bytes (sector %d + %d)", ln, sec, d), false, reqs)
+		}
+	}
 	disk, _ := mkRedumpImage(12, []uint32{0, 2, 5, 7, 10, 11}, c10Keys[2], 21)
 	w.Data("PS3ISO/h.iso", disk)
 	for l := 0; l <= 40; l++ {
@@ -357,6 +372,21 @@ func c04Tools(r *Reporter, w *World, sfos [][]byte, sfoDesc []string, idx *int) 
 			check(sprintf("decrypt redump count=%d pairs=%v", cnt, pairs), []string{"decrypt", "redump", img, kf})
 			check(sprintf("decrypt 3k3y count=%d pairs=%v", cnt, pairs), []string{"decrypt", "3k3y", img})
 		}
+	}
+	for _, ln := range []int{3*2048 + 1, 3*2048 + 17, 8*2048 + 100, 10*2048 + 2047} {
+		*idx++
+		if !r.Mine(*idx) {
+			continue
+		}
+		full, _ := mkRedumpImage(12, []uint32{0, 2, 5, 7, 11, 11}, c10Keys[2], 21)
+		copy(full[0xF70:], wmEnc)
+		copy(full[0xF80:], c10Keys[2])
+		img := filepath.Join(base, "t.iso")
+		must(os.WriteFile(img, full[:ln], 0o644))
+		kf := filepath.Join(base, "t.dkey")
+		must(os.WriteFile(kf, []byte(hex.EncodeToString(c10Keys[2])), 0o644))
+		check(sprintf("decrypt redump of an image truncated to %d bytes", ln), []string{"decrypt", "redump", img, kf})
+		check(sprintf("decrypt 3k3y of an image truncated to %d bytes", ln), []string{"decrypt", "3k3y", img})
 	}
 	for _, l := range []int{0, 1, 31, 32, 33} {
 		*idx++
